@@ -439,6 +439,33 @@ class Interp:
                     tabs = c19.ref_lrelu_tables(it["dtype"], si[0], int(zi[0]), so[0], int(zo[0]), opts.get("Alpha", 0.0))
                     table = np.asarray(tabs[0], I64)
             return [table[x - lo]]
+        if code == "ABS":
+            it = T[ins[0]]
+            if it["dtype"] not in ("int8", "uint8", "int16") or ot["dtype"] != it["dtype"]:
+                raise Unsupported("ABS on %s" % it["dtype"])
+            x = self.get(values, ins[0]).astype(I64)
+            si, zi = qparams(it)
+            so, zo = qparams(ot)
+            lo, hi = dtype_range(ot["dtype"])
+            m, e = tflref.quantize_multiplier(float(si[0]) / float(so[0]))
+            return [np.clip(vec_mbqm(np.abs(x - int(zi[0])), m, e) + int(zo[0]), lo, hi)]
+        if code == "PRELU":
+            it, at = T[ins[0]], T[ins[1]]
+            if it["dtype"] not in ("int8", "uint8") or ot["dtype"] != it["dtype"] or at["dtype"] != it["dtype"]:
+                raise Unsupported("PRELU on %s" % it["dtype"])
+            x = self.get(values, ins[0]).astype(I64)
+            a = self.get(values, ins[1]).astype(I64)
+            si, zi = qparams(it)
+            sa, za = qparams(at)
+            so, zo = qparams(ot)
+            lo, hi = dtype_range(ot["dtype"])
+            m1, e1 = tflref.quantize_multiplier(float(si[0]) / float(so[0]))
+            m2, e2 = tflref.quantize_multiplier(float(si[0]) * float(sa[0]) / float(so[0]))
+            xv = x - int(zi[0])
+            av = np.broadcast_to(a - int(za[0]), x.shape)
+            pos = vec_mbqm(xv, m1, e1)
+            neg = vec_mbqm(xv * av, m2, e2)
+            return [np.clip(np.where(xv >= 0, pos, neg) + int(zo[0]), lo, hi)]
         if code in ("EXP", "LOG", "SQRT", "GELU", "RSQRT"):
             # 8-bit: the reference populates a 256-entry table round(f(dequantised)/output scale) + zero point (float32 there, double here: one step of tolerance);
             # RSQRT is fixed-point in the reference (value 0 -> type maximum, negative values are an error), compared against the real function with the same tolerance
@@ -465,8 +492,6 @@ class Interp:
                     undefined = real < 0
                     f = np.where(real > 0, 1.0 / np.sqrt(np.where(real > 0, real, 1.0)), np.inf)
                 else:
-                    import math
-
                     if opts.get("Approximate", False):
                         f = 0.5 * real * (1 + np.tanh(math.sqrt(2 / math.pi) * (real + 0.044715 * real ** 3)))
                     else:
